@@ -18,8 +18,10 @@ func storeToGlobal(in ssa.Instruction) string {
 	return ""
 }
 
-// lemmaObligation turns a closed lemma over spec functions into one obligation.
-func lemmaObligation(p *Program, sr *SortReg, l *Lemma) (o *Obligation, err error) {
+// lemmaObligations turns a closed lemma over spec functions into proof obligations: one for a plain
+// lemma; base case, induction step and negative range for a lemma "by induction on v". The declared
+// axioms (not the lemmas that are themselves proved by induction) are available as hypotheses.
+func lemmaObligations(p *Program, sr *SortReg, l *Lemma) (obls []*Obligation, err error) {
 	defer func() {
 		if r := recover(); r != nil {
 			if se, ok := r.(specErr); ok {
@@ -29,14 +31,76 @@ func lemmaObligation(p *Program, sr *SortReg, l *Lemma) (o *Obligation, err erro
 			panic(r)
 		}
 	}()
-	ctx := newCtx(sr)
-	env := &Env{ctx: ctx, sr: sr, prog: p, init: map[string]string{}}
-	st := &State{heap: map[string]string{}, hsort: map[string]string{}, regs: map[ssa.Value]Value{}}
-	st.alloc = ctx.declConst("alloc!0", "Int")
-	qn := 0
-	se := &SpecEnv{e: env, s: st, old: st, vars: map[string]Value{}, pkg: l.Pkg, qn: &qn}
-	goal := se.evalBool(l.E)
-	return &Obligation{Func: l.Pkg + ".lemma", Kind: "lemma", Label: l.Name, ID: l.Pkg + "/lemma." + l.Name, Props: l.Props, PC: st.pc, Goal: goal, Text: l.Text, ctx: ctx}, nil
+	mk := func(suffix string, build func(se *SpecEnv, st *State) string) {
+		ctx := newCtx(sr)
+		env := &Env{ctx: ctx, sr: sr, prog: p, init: map[string]string{}}
+		st := &State{heap: map[string]string{}, hsort: map[string]string{}, regs: map[ssa.Value]Value{}}
+		st.alloc = ctx.declConst("alloc!0", "Int")
+		qn := 0
+		se := &SpecEnv{e: env, s: st, old: st, vars: map[string]Value{}, pkg: l.Pkg, qn: &qn}
+		for _, a := range p.axioms {
+			if a.Induct != "" {
+				continue
+			}
+			ae := &SpecEnv{e: env, s: st, old: nil, vars: map[string]Value{}, pkg: a.Pkg, qn: &qn}
+			f := ae.evalBool(a.E)
+			if ctx.specAxioms == nil {
+				ctx.specAxioms = map[string]bool{}
+			}
+			ctx.specAxioms[f] = true
+			st.assume(f)
+		}
+		goal := build(se, st)
+		name := l.Name
+		if suffix != "" {
+			name += "." + suffix
+		}
+		obls = append(obls, &Obligation{Func: l.Pkg + ".lemma", Kind: "lemma", Label: name, ID: l.Pkg + "/lemma." + name, Props: l.Props, PC: st.pc, Goal: goal, Text: l.Text, ctx: ctx})
+	}
+	if l.Induct == "" {
+		mk("", func(se *SpecEnv, st *State) string { return se.evalBool(l.E) })
+		return obls, nil
+	}
+	q, ok := l.E.(*EQuant)
+	if !ok || !q.Forall {
+		return nil, fmt.Errorf("induction needs a universally quantified lemma")
+	}
+	var others []QVar
+	found := false
+	for _, qv := range q.Vars {
+		if qv.Name == l.Induct {
+			found = true
+			if qv.T.Kind != "name" || qv.T.Name != "int" {
+				return nil, fmt.Errorf("induction variable %s must have type int", l.Induct)
+			}
+		} else {
+			others = append(others, qv)
+		}
+	}
+	if !found {
+		return nil, fmt.Errorf("induction variable %s is not bound by the lemma", l.Induct)
+	}
+	var inner Expr = q.Body
+	if len(others) > 0 {
+		inner = &EQuant{Forall: true, Vars: others, Body: q.Body}
+	}
+	intV := func(t string) Value { return Value{T: t, Sort: "Int", GoT: types.Typ[types.Int]} }
+	with := func(se *SpecEnv, t string) *SpecEnv {
+		return se.with(map[string]Value{l.Induct: intV(t)})
+	}
+	mk("base", func(se *SpecEnv, st *State) string { return with(se, "0").evalBool(inner) })
+	mk("step", func(se *SpecEnv, st *State) string {
+		k := se.e.ctx.freshConst("ind.k", "Int")
+		st.assume("(>= " + k + " 0)")
+		st.assume(with(se, k).evalBool(inner)) // induction hypothesis, for all values of the other variables
+		return with(se, "(+ "+k+" 1)").evalBool(inner)
+	})
+	mk("neg", func(se *SpecEnv, st *State) string {
+		k := se.e.ctx.freshConst("ind.k", "Int")
+		st.assume("(< " + k + " 0)")
+		return with(se, k).evalBool(inner)
+	})
+	return obls, nil
 }
 
 // replayObligation writes the replay record of a failed obligation and, where a replay generator
